@@ -228,7 +228,8 @@ def _pels(case):
         shutil.rmtree(outdir, ignore_errors=True)
         os.makedirs(outdir)
         runs = [(['-p', d, '-j', '-o', outdir, '-E'], 'fresh')]
-        runs.append((['-p', d, '-j', '-o', outdir, '-E'] + rng.choice([['-P'], [], ['-P']]),
+        # (options that mean something to OTHER modes ride along: what -j writes is the document all the same)
+        runs.append((['-p', d, '-j', '-o', outdir, '-E'] + rng.choice([['-P'], [], ['-P'], ['-x'], ['-x', '-P', '-r'], ['-r'], ['-H', '-N']]),
                      rng.choice(['rerun', 'longer', 'shorter', 'mixed'])))
         if rng.random() < .5:
             runs.append((['-p', d, '-j', '-o', outdir, '-E'], 'mixed'))
@@ -331,7 +332,8 @@ def _lengths(case):
                 ok = False
             recs.append(dict(shape_ok=hit, src='stdout-%s-len%s' % (mode, '-' + variant if variant else ''), inl=[], outl=[], parses=ok, roundtrip=ok,
                              text='%d chars: %s' % (len(text), (res['out'] or '')[:200])))
-        seams.run_cli(['-p', os.path.join(d, 'in'), '-j', '-o', os.path.join(d, 'out'), '-E', '-P'])
+        seams.run_cli(['-p', os.path.join(d, 'in'), '-j', '-o', os.path.join(d, 'out'), '-E', '-P']
+                      + [[], ['-x'], ['-r'], []][t % 4])
         names = os.listdir(os.path.join(d, 'out'))
         ok = False
         if len(names) == 1:
